@@ -2,3 +2,4 @@ SPECIFICATION Spec
 CONSTANT BE32 <- BadBE32
 INVARIANT Law
 CHECK_DEADLOCK FALSE
+CONSTANT NPat = 2
